@@ -60,6 +60,12 @@ def product_condition(rng, gm, qntot, superpose=True):
                 vals[0] = 1.0
             vec[same] = vals / np.linalg.norm(vals)
             cond[key] = vec.tolist()
+        elif superpose and rng.random() < 0.35:
+            # the same basis state written as a coefficient vector (the documented other form of a condition), with either
+            # sign and not necessarily normalised
+            vec = np.zeros(b.nbas)
+            vec[loc] = float(rng.choice([1.0, -1.0, -0.6, 2.0]))
+            cond[key] = vec.tolist()
         else:
             cond[key] = loc
     return cond
